@@ -262,6 +262,16 @@ impl Transform {
         }
 
         while let Some(template) = iter.next() {
+            // What an ellipsis repeats must contain a variable the pattern bound under an
+            // ellipsis: its matches are what ends the repetition.
+            if iter.peek() == Some(&ellipsis)
+                && template != ellipsis
+                && !Self::has_expanded_variable(template, pattern)
+            {
+                return Err(InvalidSyntax(
+                    "ellipses must follow a pattern variable bound under an ellipsis".into(),
+                ));
+            }
             match template {
                 Cell::Pair(_, _) => Self::check_template_syntax(template, pattern, ellipsis)?,
                 Cell::Symbol(_) => {
@@ -282,6 +292,22 @@ impl Transform {
             }
         }
         Ok(())
+    }
+
+    /// Does the template mention a pattern variable that was bound under an ellipsis?
+    fn has_expanded_variable(template: &Cell, pattern: &Pattern) -> bool {
+        let mut pending = vec![template];
+        while let Some(cell) = pending.pop() {
+            match cell {
+                Cell::Pair(car, cdr) => {
+                    pending.push(cdr);
+                    pending.push(car);
+                }
+                Cell::Symbol(_) if pattern.is_expanded_variable(cell) => return true,
+                _ => {}
+            }
+        }
+        false
     }
 
     /// Transform
